@@ -208,7 +208,7 @@ def run(pid, tier, seed, replay, mode):
             # learned circuits (structured-decomposable XPCs and LearnSPN with Chow-Liu leaves): their leaves have been through
             # the learners' own sequence of constructor / fit calls
             from . import c10
-            for r in c10.learned_circuits(rs, 4 if tier == "quick" else 24):
+            for r in c10.learned_circuits(rs, 8 if tier == "quick" else 32):
                 yield r, True
     for root, learned in stream():
         points = make_points(root, rs)
